@@ -1,71 +1,153 @@
-(* C05 / kernel K105c: vocabulary and meaning of the prologue of the dispatcher emitted by
-   DiscriminatedUnionUnpackerBuilder._add_body for a discriminator with a field (coq/gen/K105c.v,
-   tools/kernels/k105c_discr_prologue.py).  Python meaning with exception classes: value[<field>] is Core.py_getitem_str
-   (KeyError for a missing key, TypeError for a non-mapping), hash(tag) raises TypeError for an unhashable tag, an
-   `except C:` clause catches exactly class C here (the raised classes are the builtin KeyError / TypeError).
-   Definitions only. *)
-From Coq Require Import List String Bool.
-From Verif Require Import Core Errs.
+(* C12 - the EMITTED registry region of the field-mode dispatcher, as a program.
+
+   Kernel K12 (tools/kernels/k12_discr.py) translates the statements that DiscriminatedUnionUnpackerBuilder._add_body
+   (unpack.py) emits between the hash test and the end of the `if discriminator.field:` branch - the guarded lookup
+   `try: <registry / own-method lookup>  except (KeyError, AttributeError): <refill loop, retry>` and the final call -
+   together with _add_register_variant_tags, into a list of [estmt] (VerifGen.K12.emit_lookup nailed tagger): one
+   constructor per emitted line shape, the control structure (try / except / for / if / continue, the order of the
+   lines, what is inside which handler) taken from the source on every run.
+
+   This file gives those statements their meaning (trusted: the semantics of the individual lines below and of Python's
+   try / for / continue) and proves that running the emitted program IS the model's clause Discr.field_body /
+   Discr.refill_retry: same registry afterwards, same variants (re)built, same class entered. *)
+From Coq Require Import List Arith Bool.
+From Verif Require Import Discr PyK_discr.
 Import ListNotations.
 
-Inductive dexc := DKeyError | DTypeError.
+(* what `variant_tagger_fn(variant)` returned: `type(variant_tags) is list` or a bare value *)
+Inductive tagres := TList (l: list tag) | TScalar (t: tag).
+Definition flat (r: tagres) : list tag := match r with TList l => l | TScalar t => [t] end.
 
-Inductive dstmt :=
-| DTry (body: list dstmt) (handlers: list (dexc * list dstmt))   (* try: body / except C1: h1 / except C2: h2 ... *)
-| DReadTag                    (* discriminator = value[<field>] *)
-| DHash                       (* hash(discriminator) *)
-| DRaiseMissing               (* raise MissingDiscriminatorError(<field>) from None *)
-| DIfNotDict (body orelse: list dstmt)   (* if not isinstance(value, dict): body / else: orelse *)
-| DRaiseValueError            (* raise ValueError('Argument for ... should be a dict instance') from None *)
-| DReraise                    (* raise *)
-| DRaiseNoVariant.            (* raise SuitableVariantNotFoundError(<type>, <field>, discriminator) from None *)
+Record env := Env {
+  e_map    : bool;         (* `variants_map = REG` was executed: the handler of the guarded lookup (the refill) ran *)
+  e_reg    : reg;          (* the registry dict; `variants_map` is an alias of the same object *)
+  e_built  : list nat;     (* variants handed to _add_build_variant_unpacker, newest first *)
+  e_var    : nat;          (* variant *)
+  e_tags   : tagres;       (* variant_tags *)
+  e_tag1   : tag;          (* varint_tag *)
+  e_chosen : option nat;   (* __variant *)
+  e_unpack : option nat    (* unpack = the method of this class *)
+}.
 
-Definition catches (c: dexc) (e: exn) : bool :=
-  match c, e with
-  | DKeyError, XKeyError | DTypeError, XTypeError => true
-  | _, _ => false end.
+Inductive ctl := CNext | CExc (x: exn) | CContinue | CReturn (c: nat) | CNotFound.
 
-Fixpoint find_handler (hs: list (dexc * list dstmt)) (e: exn) : option (list dstmt) :=
-  match hs with
-  | [] => None
-  | (c, h) :: r => if catches c e then Some h else find_handler r e end.
-
-Section ListRunD.
-  Variable run : dstmt -> option pv -> res (option pv).
-  Fixpoint run_dlist (l: list dstmt) (tag: option pv) {struct l} : res (option pv) :=
+(* Python's for statement: the body runs once per element; `continue` ends the iteration, an exception / return the loop *)
+Section Loop.
+  Context {A: Type} (body: A -> env -> ctl * env).
+  Fixpoint for_loop (l: list A) (e: env) {struct l} : ctl * env :=
     match l with
-    | [] => Ok tag
-    | s :: r => match run s tag with Exn e => Exn e | Ok t => run_dlist r t end
+    | [] => (CNext, e)
+    | v :: r => match body v e with
+                | (CNext, e') | (CContinue, e') => for_loop r e'
+                | y => y
+                end
     end.
-End ListRunD.
+End Loop.
 
-Section RunPrologue.
-  Variable field : string.
-  Variable v : pv.
+Section Exec.
+  Variable cl : list cls.
+  Variable s : site.
+  Variable t : tag.                  (* discriminator *)
+  Variable vs : list nat.            (* the variants iterable, evaluated when the for statement starts *)
+  Variable hm : nat -> bool.         (* the class has its own unpack method (nailed) / an entry in the codec's attrs registry *)
+  Variable tr : nat -> tagres.       (* variant_tagger_fn *)
 
-  (* [cur]: the exception being handled (for a bare `raise`); state: the local `discriminator` *)
-  Fixpoint run_d (cur: option exn) (s: dstmt) (tag: option pv) {struct s} : res (option pv) :=
-    match s with
-    | DTry b hs =>
-        match run_dlist (run_d cur) b tag with
-        | Ok t => Ok t
-        | Exn e =>
-            (fix handle (l: list (dexc * list dstmt)) : res (option pv) :=
-               match l with
-               | [] => Exn e
-               | (c, h) :: r => if catches c e then run_dlist (run_d (Some e)) h tag else handle r
-               end) hs
+  Definition has_m (e: env) (c: nat) : bool := hm c || memb c (e_built e).
+  Definition set_reg (e: env) (r: reg) : env := Env (e_map e) r (e_built e) (e_var e) (e_tags e) (e_tag1 e) (e_chosen e) (e_unpack e).
+
+  (* one emitted line *)
+  Definition prim (p: estmt) (e: env) : ctl * env :=
+    match p with
+    | SLookup => match reg_get t (e_reg e) with
+                 | Some c => (CNext, Env (e_map e) (e_reg e) (e_built e) (e_var e) (e_tags e) (e_tag1 e) (Some c) (e_unpack e))
+                 | None => (CExc EKeyError, e)
+                 end
+    | SOwnCheck => match e_chosen e with
+                   | Some c => if has_m e c then (CNext, e) else (CExc EAttributeError, e)
+                   | None => (CExc ETypeError, e)
+                   end
+    | SBind => (CNext, Env (e_map e) (e_reg e) (e_built e) (e_var e) (e_tags e) (e_tag1 e) (e_chosen e) (e_chosen e))
+    | SBindReg => match reg_get t (e_reg e) with
+                  | Some c => if has_m e c then (CNext, Env (e_map e) (e_reg e) (e_built e) (e_var e) (e_tags e) (e_tag1 e) (e_chosen e) (Some c))
+                              else (CExc EKeyError, e)                 (* attrs_registry[cls] *)
+                  | None => (CExc EKeyError, e)
+                  end
+    | SSetMap => (CNext, Env true (e_reg e) (e_built e) (e_var e) (e_tags e) (e_tag1 e) (e_chosen e) (e_unpack e))
+    | SRegOwn => match assoc (s_fid s) (c_tags (nth (e_var e) cl dummy_cls)) with
+                 | Some tg => (CNext, set_reg e ((tg, e_var e) :: e_reg e))
+                 | None => (CExc EKeyError, e)                          (* variant.__dict__[field] *)
+                 end
+    | STags => (CNext, Env (e_map e) (e_reg e) (e_built e) (e_var e) (tr (e_var e)) (e_tag1 e) (e_chosen e) (e_unpack e))
+    | SRegTagVar => (CNext, set_reg e ((e_tag1 e, e_var e) :: e_reg e))
+    | SRegTagsVar => match e_tags e with
+                     | TScalar tg => (CNext, set_reg e ((tg, e_var e) :: e_reg e))
+                     | TList _ => (CExc ETypeError, e)                  (* a list is not hashable *)
+                     end
+    | SContinue => (CContinue, e)
+    | SBuild => (CNext, Env (e_map e) (e_reg e) (e_var e :: e_built e) (e_var e) (e_tags e) (e_tag1 e) (e_chosen e) (e_unpack e))
+    | SRetry | SRetryReg =>
+        match reg_get t (e_reg e) with
+        | Some c => (CNext, Env (e_map e) (e_reg e) (e_built e) (e_var e) (e_tags e) (e_tag1 e) (e_chosen e) (Some c))
+        | None => (CExc EKeyError, e)
         end
-    | DReadTag => match py_getitem_str v field with Ok t => Ok (Some t) | Exn e => Exn e end
-    | DHash => match tag with
-               | Some t => if hashable t then Ok tag else Exn XTypeError
-               | None => Exn (XOther "NameError") end
-    | DRaiseMissing => Exn (XMissingDiscriminator field)
-    | DIfNotDict b o => if is_dict v then run_dlist (run_d cur) o tag else run_dlist (run_d cur) b tag
-    | DRaiseValueError => Exn XValueError
-    | DReraise => match cur with Some e => Exn e | None => Exn (XOther "RuntimeError") end
-    | DRaiseNoVariant => Exn XNoVariant
+    | SRaiseNotFound => (CNotFound, e)
+    | SReturnCall => match e_unpack e with Some c => (CReturn c, e) | None => (CExc ETypeError, e) end
+    | _ => (CExc EException, e)
     end.
 
-  Definition run_prologue (p: list dstmt) : res (option pv) := run_dlist (run_d None) p None.
-End RunPrologue.
+  Fixpoint exec (p: estmt) (e: env) {struct p} : ctl * env :=
+    let block := fix block (l: list estmt) (e: env) {struct l} : ctl * env :=
+      match l with
+      | [] => (CNext, e)
+      | q :: r => match exec q e with (CNext, e') => block r e' | y => y end
+      end in
+    match p with
+    | STry b h hb =>
+        match block b e with
+        | (CExc x, e') => if catches h [x] then block hb e' else (CExc x, e')
+        | y => y
+        end
+    | SForVariants b =>
+        for_loop (fun v e => block b (Env (e_map e) (e_reg e) (e_built e) v (e_tags e) (e_tag1 e) (e_chosen e) (e_unpack e))) vs e
+    | SForTags b =>
+        for_loop (fun g e => block b (Env (e_map e) (e_reg e) (e_built e) (e_var e) (e_tags e) g (e_chosen e) (e_unpack e)))
+                 (match e_tags e with TList l => l | TScalar _ => [] end) e
+    | SIfList a b => match e_tags e with TList _ => block a e | TScalar _ => block b e end
+    | q => prim q e
+    end.
+
+  Fixpoint exec_block (l: list estmt) (e: env) {struct l} : ctl * env :=
+    match l with
+    | [] => (CNext, e)
+    | q :: r => match exec q e with (CNext, e') => exec_block r e' | y => y end
+    end.
+End Exec.
+
+Definition env0 (r: reg) : env := Env false r [] 0 (TList []) 0 None None.
+
+(* what the model says about the same region (Discr.field_body / Discr.refill_retry, one dispatcher, one call):
+   (class entered | not found, registry afterwards, variants built in order) *)
+Definition model_lookup (cl: list cls) (s: site) (t: tag) (hm: nat -> bool) (r: reg) : bool * option nat * reg * list nat :=
+  let miss := let r' := refill cl s r in (true, reg_get t r', r', built cl s) in
+  match reg_get t r with
+  | Some c => if hm c then (false, Some c, r, []) else miss
+  | None => miss
+  end.
+
+(* (the handler ran, class whose method is called | not found, registry afterwards, variants (re)built in order) *)
+Definition result_of (x: ctl * env) : option (bool * option nat * reg * list nat) :=
+  match x with
+  | (CReturn c, e) => Some (e_map e, Some c, e_reg e, rev (e_built e))
+  | (CNotFound, e) => Some (e_map e, None, e_reg e, rev (e_built e))
+  | _ => None
+  end.
+
+(* Discr.field_body, written as "run the lookup region, then commit its effects and call the class":
+   proved equal to Discr.field_body below (DiscrEmitProofs.field_body_is_lookup) *)
+Definition commit_lookup (enter: st -> nat -> st * outcome) (top: nat) (codec: bool) (k: rkey) (x: st)
+                         (res: bool * option nat * reg * list nat) : st * outcome :=
+  let '(refilled, oc, r', b) := res in
+  let x' := if refilled
+            then mark codec b (St (classes x) ((k, r') :: (if codec then reset_nested top b (regs x) else regs x)) (comp x) (cur x))
+            else x in
+  match oc with Some c => enter x' c | None => (x', ONotFound) end.
